@@ -51,5 +51,5 @@ def main(tier, seed, replay=None):
         return minic.replay(PID, replay)
     progs = population(tier, seed)
     sizes = (60, 300, 100) if tier == "quick" else (150, 400, 600)
-    rc, _cov = minic.run_check(PID, tier, seed, progs, PLAT, "verdict", sizes, assumptions=ASSUMPTIONS)
+    rc, _cov = minic.run_check(PID, tier, seed, progs, "verdict", sizes, assumptions=ASSUMPTIONS)
     return rc
